@@ -122,6 +122,12 @@ def check_cp(ck, L, X, names, comps, st):
                              '%s returned %r without an error although %s fails for Z=%r%s' % (call(j), float(cv[k, j]), fn[:-3], zf,
                                                                                            ' (an earlier element legitimately contributes exactly 0.0)' if cls else ''),
                              dict(call=call(j), elements=c['Z'].tolist(), failing=zf, elemental=[float(ev[i, j]) for i in idx], config=L.config))
+            # a failing compound call returns the 0 sentinel, never the partial sum of the elements that did succeed
+            bad = np.nonzero(~allok & ~cok[k] & (cv[k] != 0.0))[0]
+            for j in bad[:2]:
+                ck.violation('c06:%s:partial-sum-returned-on-failure' % fn,
+                             '%s failed but returned %r instead of 0' % (call(j), float(cv[k, j])),
+                             dict(call=call(j), elements=c['Z'].tolist(), elemental=[float(ev[i, j]) for i in idx], config=L.config))
             # success expected
             bad = np.nonzero(allok & ~cok[k])[0]
             for j in bad[:2]:
